@@ -196,6 +196,20 @@ fn check_composite(s: u64, r: &mut Report) {
     let v2: Vec2 = Uniform(vec2(-1.0, 2.0)..vec2(1.0, 3.0)).sample(&mut Xorshift64(s));
     let p2: Point2 = Uniform(pt2(-1.0, 2.0)..pt2(1.0, 3.0)).sample(&mut Xorshift64(s));
     ok &= v3.0 == e && p3.0 == e && v2.0 == [e[0], e[1]] && p2.0 == [e[0], e[1]];
+    // ranges far from zero (the last rounding step can reach the excluded end there): every composite type must give the
+    // scalar draws, and every component must lie in its half-open range
+    let (lo, hi) = ([1000.0f32, 1e6, -5.0], [1001.0f32, 1e6 + 1.0, -4.999]);
+    let mut h5 = Xorshift64(s);
+    let eo = [Uniform(lo[0]..hi[0]).sample(&mut h5), Uniform(lo[1]..hi[1]).sample(&mut h5), Uniform(lo[2]..hi[2]).sample(&mut h5)];
+    let ao = Uniform(lo..hi).sample(&mut Xorshift64(s));
+    let vo: Vec3 = Uniform(vec3(lo[0], lo[1], lo[2])..vec3(hi[0], hi[1], hi[2])).sample(&mut Xorshift64(s));
+    let po: Point3 = Uniform(pt3(lo[0], lo[1], lo[2])..pt3(hi[0], hi[1], hi[2])).sample(&mut Xorshift64(s));
+    let po2: Point2 = Uniform(pt2(lo[0], lo[2])..pt2(hi[0], hi[2])).sample(&mut Xorshift64(s));
+    let in_rng = |v: &[f32], l: &[f32], h: &[f32]| v.iter().zip(l.iter().zip(h)).all(|(x, (a, b))| x >= a && x < b);
+    if ao != eo || vo.0 != eo || po.0 != eo || !in_rng(&po.0, &lo, &hi) || !in_rng(&vo.0, &lo, &hi) || !in_rng(&po2.0, &[lo[0], lo[2]], &[hi[0], hi[2]]) {
+        r.violation(format!("composite-offset-range|s={s:#x}"), format!("ranges {lo:?}..{hi:?} from state {s:#x}: scalars {eo:?}, array {ao:?}, vector {:?}, point {:?}, point2 {:?}", vo.0, po.0, po2.0), obj! {"kind" => "composite", "s" => format!("{s:#x}")});
+        return;
+    }
     let ia = Uniform([0i32, -5]..[10, 5]).sample(&mut Xorshift64(s));
     let mut h2 = Xorshift64(s);
     let ie = [Uniform(0..10).sample(&mut h2), Uniform(-5..5).sample(&mut h2)];
@@ -309,6 +323,7 @@ fn main() {
             for (j, nv) in sol2.null.iter().enumerate() { if k >> j & 1 == 1 { s ^= nv; } }
             if s != 0 && (mantissa_of(step(s)), mantissa_of(step(step(s)))) != (m1, m2) { machinery_error("GF(2) solution does not reproduce requested mantissas"); }
             check_2d(s, r, "boundary-pair");
+            if s != 0 { check_composite(s, r); }
         }));
         // first mantissa on the boundary set, second over all 2^23 values (one solution each)
         rep.merge(par_range(&cfg, bsz << 23, |i, r| {
@@ -332,6 +347,12 @@ fn main() {
     }
     // states from short orbits also feed the multi-component distributions
     rep.merge(par_range(&cfg, if quick { 1 << 20 } else { 1 << 24 }, |i, r| { let s = (i + 1).wrapping_mul(0x9E3779B97F4A7C15); check_2d(s, r, "spread"); check_3d(s, r, "spread"); if i & 0xF == 0 { check_composite(s, r); } }));
+    // consecutive states of real orbits (long rejection runs of the disk/ball samplers occur there, not on solved states)
+    let wn: u64 = if quick { 1 << 17 } else { 1 << 22 };
+    rep.merge(par_range(&cfg, 16, |k, r| {
+        let mut s = (k + 1).wrapping_mul(0xD1B54A32D192ED03) | 1;
+        for _ in 0..wn { check_2d(s, r, "orbit-walk"); check_3d(s, r, "orbit-walk"); s = step(s); }
+    }));
     // (f) orbits
     let mut seeds: Vec<u64> = vec![Xorshift64::DEFAULT_SEED];
     for i in 0..64 { seeds.push(1 << i); }
@@ -365,6 +386,6 @@ fn main() {
     }
     rep.sample(0, || obj! {"f32" => "mantissa 0x7fffff, range 1000..1001", "i32" => "low word 0x80000000, range -2147483648..-2147483645", "pair_state" => "state with mantissas (0x400000,0x400000) from GF(2) solve", "orbit_seed" => Xorshift64::DEFAULT_SEED});
     rep.finish(&cfg, "exploration",
-        "all 2^23 mantissas x 12 float ranges and x 9 Bernoulli p; ~250 boundary raw 64-bit outputs (all ones, single bits, runs of ones and complements) through every scalar distribution; all 2^32 low words (quick: 2^24 boundary-dense) x 10 int ranges; multi-component distributions on GF(2)-solved states: every pair of 8 boundary mantissas x the full 2^18 solution space, boundary x all 2^23 second mantissas, boundary pairs x all top-18-bit third mantissas, plus 2^20 (2^24) spread states; composite distributions vs scalar draws; orbits of 1066 seeds for 2^18 (2^24) steps and 2^31 steps from the default seed (thorough): never zero, no early cycle, inverse step returns the predecessor. The 2^64-1 period clause is only bounded by enumeration; the GF(2) order certificate is supplementary algebra.",
+        "all 2^23 mantissas x 12 float ranges and x 9 Bernoulli p; ~250 boundary raw 64-bit outputs (all ones, single bits, runs of ones and complements) through every scalar distribution; all 2^32 low words (quick: 2^24 boundary-dense) x 10 int ranges; multi-component distributions on GF(2)-solved states: every pair of 8 boundary mantissas x the full 2^18 solution space, boundary x all 2^23 second mantissas, boundary pairs x all top-18-bit third mantissas, plus 2^20 (2^24) spread states and 16 orbit segments of 2^17 (2^22) consecutive states; composite distributions vs scalar draws; orbits of 1066 seeds for 2^18 (2^24) steps and 2^31 steps from the default seed (thorough): never zero, no early cycle, inverse step returns the predecessor. The 2^64-1 period clause is only bounded by enumeration; the GF(2) order certificate is supplementary algebra.",
         &["harness-side inverse of the step is validated against the real next_bits on every use", "unit-length tolerance 1e-3, disk/ball tolerance 1e-6 in f64", "int ranges with representable width only"]);
 }
